@@ -130,6 +130,7 @@ def run(res: Results, idx: Index, tier: str) -> None:
 
     # ---------------- R-C19c bind keys vs abstract_eval
     _bind_keys(res, idx)
+    rule_d(res, idx, specs)
 
     # positive controls
     o = Sig([])
@@ -189,3 +190,102 @@ def _bind_keys(res: Results, idx: Index) -> None:
                                 res.ok("R-C19c", f"{m.rel}:{n.lineno}", key, "", fi.qualname)
                             else:
                                 res.violation("R-C19c", f"{m.rel}:{n.lineno}", key, f"{c.name}: bind(…, {k.arg}=…) but abstract_eval{asig.render()} does not accept `{k.arg}`: tracing raises TypeError for this call form", fi.qualname)
+
+
+# ---------------------------------------------------------------------------------------------- R-C19d
+def _len_gt(test: ast.AST, seq: str):
+    """`len(seq) > n` / `len(seq) >= n` -> the smallest length that satisfies the test, else None"""
+    if isinstance(test, ast.Compare) and len(test.ops) == 1 and isinstance(test.left, ast.Call) and (call_name(test.left) or "") == "len" and test.left.args \
+            and isinstance(test.left.args[0], ast.Name) and test.left.args[0].id == seq and isinstance(test.comparators[0], ast.Constant) and isinstance(test.comparators[0].value, int):
+        n = test.comparators[0].value
+        if isinstance(test.ops[0], ast.Gt):
+            return n + 1
+        if isinstance(test.ops[0], ast.GtE):
+            return n
+    return None
+
+
+def manual_positional_reads(fn: ast.AST):
+    """In a function that receives a positional tuple (a *vararg or a parameter named like one), find
+    `SEQ[k]` reads guarded by a length test on the same sequence.  Yields (node, seq, k, min_len, how)."""
+    a = fn.args  # type: ignore[attr-defined]
+    seqs = {}
+    if a.vararg is not None:
+        seqs[a.vararg.arg] = 0
+    for p in a.posonlyargs + a.args:
+        if p.arg in ("args", "call_args", "positional"):
+            seqs[p.arg] = 0
+    # a, *rest = args
+    for n in ast.walk(fn):
+        if isinstance(n, ast.Assign) and isinstance(n.targets[0], ast.Tuple) and isinstance(n.value, ast.Name) and n.value.id in seqs:
+            elts = n.targets[0].elts
+            for i, e in enumerate(elts):
+                if isinstance(e, ast.Starred) and isinstance(e.value, ast.Name) and i == len(elts) - 1:
+                    seqs[e.value.id] = seqs[n.value.id] + i
+    if not seqs:
+        return
+    for n in ast.walk(fn):
+        # V = SEQ[k] if len(SEQ) > n else <default>
+        if isinstance(n, ast.IfExp) and isinstance(n.body, ast.Subscript) and isinstance(n.body.value, ast.Name) and n.body.value.id in seqs and isinstance(n.body.slice, ast.Constant) and isinstance(n.body.slice.value, int):
+            seq, k = n.body.value.id, n.body.slice.value
+            ml = _len_gt(n.test, seq)
+            if ml is not None and k >= 0:
+                yield n, seq, k, ml, seqs[seq], n.orelse
+        # if len(SEQ) > n: V = SEQ[k]  [else: V = <default>]
+        if isinstance(n, ast.If) and len(n.body) == 1 and isinstance(n.body[0], ast.Assign) and isinstance(n.body[0].value, ast.Subscript):
+            sub = n.body[0].value
+            if isinstance(sub.value, ast.Name) and sub.value.id in seqs and isinstance(sub.slice, ast.Constant) and isinstance(sub.slice.value, int) and sub.slice.value >= 0:
+                ml = _len_gt(n.test, sub.value.id)
+                if ml is not None:
+                    other = n.orelse[0].value if len(n.orelse) == 1 and isinstance(n.orelse[0], ast.Assign) else None
+                    yield n, sub.value.id, sub.slice.value, ml, seqs[sub.value.id], other
+
+
+def rule_d(res: Results, idx: Index, specs) -> None:
+    res.rule("R-C19d", "manual positional canonicalisation in (*args, **kwargs) substitutes: `args[k]` is taken exactly when len(args) > k, and the keyword fallback names the library's parameter at that position", floor=4)
+    seen = set()
+    for sp in specs:
+        w = sp.wrapper
+        if w is None or isinstance(w, ast.Lambda) or sp.target is None or sp.attr is None:
+            continue
+        fns = [w]
+        # helpers the wrapper hands its positional tuple to
+        wfi = sp.wrapper_fi
+        if w.args.vararg is not None and wfi is not None:  # type: ignore[attr-defined]
+            for c in ast.walk(w):
+                if isinstance(c, ast.Call) and any((isinstance(x, ast.Name) and x.id == w.args.vararg.arg) or (isinstance(x, ast.Starred) and isinstance(x.value, ast.Name) and x.value.id == w.args.vararg.arg) for x in c.args):  # type: ignore[attr-defined]
+                    g = idx.resolve_func(sp.module, call_name(c) or "", cls=sp.cls, scope=wfi)
+                    if g is not None:
+                        fns.append(g.node)
+        orig, err = library_object(sp.target, sp.attr)
+        try:
+            osig = sig_from_inspect(inspect.signature(orig)) if orig is not None else None
+        except (TypeError, ValueError):
+            osig = None
+        for fn in fns:
+            if id(fn) in seen:
+                continue
+            seen.add(id(fn))
+            for node, seq, k, min_len, offset, other in manual_positional_reads(fn):
+                pos = k + offset
+                key = f"{sp.fq}::positional#{pos}::manual"
+                site = f"{sp.module.rel}:{node.lineno}"
+                cls_name = sp.cls.name if sp.cls else "?"
+                if min_len > k + 1:
+                    res.violation("R-C19d", site, key, f"substitute for {sp.fq} reads `{seq}[{k}]` only when len({seq}) >= {min_len}: a call that passes exactly {pos + 1} positional arguments has its argument #{pos} silently replaced by the default", cls_name)
+                    continue
+                # keyword fallback name vs library parameter at that position
+                kwname = None
+                if other is not None:
+                    for c in ast.walk(other):
+                        if isinstance(c, ast.Call) and isinstance(c.func, ast.Attribute) and c.func.attr in ("pop", "get") and c.args and isinstance(c.args[0], ast.Constant) and isinstance(c.args[0].value, str):
+                            kwname = c.args[0].value
+                if osig is not None and kwname is not None:
+                    lib_pos = osig.positional
+                    if pos < len(lib_pos) and lib_pos[pos].name != kwname and not any(p.name == kwname for p in osig.params):
+                        res.violation("R-C19d", site, key, f"positional argument #{pos} of {sp.fq} is `{lib_pos[pos].name}` in the library but the substitute binds it as `{kwname}`", cls_name)
+                        continue
+                    if pos < len(lib_pos) and lib_pos[pos].name != kwname:
+                        res.violation("R-C19d", site, key, f"positional argument #{pos} of {sp.fq} is `{lib_pos[pos].name}` in the library but the substitute treats it as `{kwname}`", cls_name)
+                        continue
+                res.ok("R-C19d", site, key, f"`{seq}[{k}]` taken when len({seq}) > {k}" + (f", keyword fallback `{kwname}`" if kwname else ""), cls_name)
